@@ -163,24 +163,41 @@ func (c16Dummy) Resolve(field *ggql.Field, args map[string]interface{}) (interfa
 	return c16Dummy{}, nil
 }
 
-// canonIntro sorts every list of named things so that set-valued answers compare equal.
+// canonIntro renders a response as canonical text in which every list is sorted (set-valued answers compare
+// equal whatever the member order). Built bottom-up so each subtree is rendered once.
 func canonIntro(v interface{}) interface{} {
+	return canonIntroText(v)
+}
+
+func canonIntroText(v interface{}) string {
 	switch tv := v.(type) {
 	case map[string]interface{}:
-		out := map[string]interface{}{}
-		for k, e := range tv {
-			out[k] = canonIntro(e)
+		keys := make([]string, 0, len(tv))
+		for k := range tv {
+			keys = append(keys, k)
 		}
-		return out
+		sort.Strings(keys)
+		var b strings.Builder
+		b.WriteByte('{')
+		for i, k := range keys {
+			if i > 0 {
+				b.WriteByte(',')
+			}
+			b.WriteString(k + ":" + canonIntroText(tv[k]))
+		}
+		b.WriteByte('}')
+		return b.String()
 	case []interface{}:
-		out := make([]interface{}, len(tv))
+		parts := make([]string, len(tv))
 		for i, e := range tv {
-			out[i] = canonIntro(e)
+			parts[i] = canonIntroText(e)
 		}
-		sort.SliceStable(out, func(i, j int) bool { return fmt.Sprint(toJSON(out[i])) < fmt.Sprint(toJSON(out[j])) })
-		return out
+		sort.Strings(parts)
+		return "[" + strings.Join(parts, ",") + "]"
+	case string:
+		return fmt.Sprintf("%q", tv)
 	}
-	return v
+	return fmt.Sprint(v)
 }
 
 type c16Outcome struct {
